@@ -445,6 +445,14 @@ def split_equations_iter(model: str) -> Iterator[str]:
             # Reset the buffer to collect another equation
             buffer = []
 
+    # If a block of verbatim code is still open at this point, its closing
+    # fence is missing: throw an error rather than silently drop the block
+    if not complete_verbatim_block:
+        raise ParserError(
+            'Failed to find the closing backticks of the verbatim code block '
+            'beginning: ' + '\n'.join(buffer)
+        )
+
     # If `unmatched_parentheses` is non-zero at this point, there must have
     # been an error in the input script's syntax. Throw an error
     if unmatched_parentheses != 0:
